@@ -130,6 +130,38 @@ fn c09_colmatrix_base_element() {
     core::mem::forget((c, q));
 }
 
+
+// a single Segment built at a base-column offset that is NOT a multiple of the batch size, with fewer than `batch` columns left
+// @ob id=C09 tier=quick req=1 fs=1 to=1200 funcs="Segment::{new,new_with_buffer,into_data},get_evaluation_offsets" bounds="5 base-field columns of 4 coefficients, batch size 4, segment starting at base column 3 (2 columns left), blowup 2, offset 5" sym="coefficient 2 of column 4 (all 257 values)" enum="sizes, offset, position, constants" desc="columns 3 and 4 are evaluated at offset * w^i into slots 0 and 1 of every row, the remaining slots stay zero"
+#[kani::proof]
+#[kani::unwind(24)]
+#[kani::stub(alloc::fmt::format, nofmt)]
+fn c09_segment_unaligned_partial() {
+    use prover::matrix::{get_evaluation_offsets, Segment};
+    let mut cols: [[T; 4]; 5] = [[T(0); 4]; 5];
+    let mut k = 0;
+    while k < 20 { cols[k / 4][k % 4] = T(((k * 41 + 3) % 257) as u16); k += 1; }
+    cols[4][2] = el();
+    let polys = ColMatrix::new(vec![cols[0].to_vec(), cols[1].to_vec(), cols[2].to_vec(), cols[3].to_vec(), cols[4].to_vec()]);
+    let offsets = get_evaluation_offsets::<T>(4, 2, T(5));
+    let twiddles = fft::get_twiddles::<T>(4);
+    let seg = Segment::<T, 4>::new(&polys, 3, &offsets, &twiddles);
+    assert!(seg.num_rows() == 8);
+    let data = seg.into_data();
+    let g = T::get_root_of_unity(3);
+    let mut x = T(5);
+    let mut i = 0;
+    while i < 8 {
+        assert!(data[i][0] == horner(&cols[3], x));
+        assert!(data[i][1] == horner(&cols[4], x));
+        assert!(data[i][2] == T(0) && data[i][3] == T(0));
+        x = x * g;
+        i += 1;
+    }
+    kani::cover!(true);
+    core::mem::forget((polys, data));
+}
+
 // @ob id=C09 tier=quick req=1 fs=1 to=900 expect=fail desc="vacuity twin: the LDE rows are reached and compared"
 #[kani::proof]
 #[kani::unwind(12)]
